@@ -113,6 +113,54 @@ class Sim:
             return 'raised:%s' % type(exc).__name__, None
         return 'reply', rpy
 
+    def stream(self, data_bytes, addr=('10.0.0.9', 45000), step_hook=None):
+        """A whole connection lifetime: the bytes arrive (in one block), then EOF.  Mirrors the loop of enip_srv_tcp:
+        parse a frame, process it, encode the reply, until EOF / error / session end.
+        -> (replies [bytes], how the connection ended: 'eof' | 'closed-by-server' | 'error:<exc>')"""
+        cpppo, parser, logix = self.cpppo, self.parser, self.logix
+        source = cpppo.rememberable()
+        source.chain(bytes(data_bytes))
+        replies = []
+        fed_eof = False
+        with parser.enip_machine(context='enip') as machine:
+            while True:
+                data = cpppo.dotdict()
+                source.forget()
+                try:
+                    with contextlib.closing(machine.run(path='request', source=source, data=data)) as engine:
+                        for mch, sta in engine:
+                            if sta is not None:
+                                continue
+                            if source.peek() is None:
+                                if fed_eof:
+                                    continue        # let the machine detect no progress, as the server does
+                                source.chain(b'')
+                                fed_eof = True
+                except Exception as exc:
+                    try:
+                        logix.process(addr, data=cpppo.dotdict(), **self.kw)
+                    except Exception:
+                        pass
+                    return replies, 'error:%s' % type(exc).__name__
+                had_request = 'request' in data
+                try:
+                    proceed = logix.process(addr, data=data, **self.kw)
+                    if not proceed:
+                        return replies, ('closed-by-server' if had_request else 'eof')
+                    if 'input' not in data.response.enip or not data.response.enip.input:
+                        assert data.response.enip.status
+                    rpy = bytes(parser.enip_encode(data.response.enip))
+                    replies.append(rpy)
+                    if data.response.enip.status:
+                        logix.process(addr, data=cpppo.dotdict(), **self.kw)
+                        return replies, 'closed-by-server'
+                except Exception as exc:
+                    try:
+                        logix.process(addr, data=cpppo.dotdict(), **self.kw)
+                    except Exception:
+                        pass
+                    return replies, 'error:%s' % type(exc).__name__
+
     def register(self, addr=('10.0.0.1', 40000)):
         out, rpy = self.frame(rc.register_frame(), addr)
         assert out == 'reply', out
